@@ -38,7 +38,7 @@ func loc(m int, addr uint64, lines ...ap.Line) ap.Loc {
 
 func base() *ap.AP {
 	return &ap.AP{Types: []ap.VT{{Type: "n", Unit: "count"}, {Type: "v", Unit: "count"}}, Maps: enum.Maps2,
-		PeriodType: &ap.VT{Type: "n", Unit: "count"}, Period: 1}
+		PeriodType: &ap.VT{Type: "n", Unit: "count"}, Period: 1, Comments: []string{"first comment", "second comment"}}
 }
 
 // Inputs returns the tie-rich profiles.
@@ -199,6 +199,7 @@ func Run(c *vk.Ctx) {
 		}
 	}
 	fetchOrders(c, &idx)
+	repeats(c, &idx)
 	if c.Shard == 0 {
 		Laws(c)
 	}
